@@ -247,6 +247,7 @@ static void        hostlist_coalesce(hostlist_t hl);
 static void        hostlist_collapse(hostlist_t hl);
 static hostlist_t _hostlist_create(const char *, char *, char *);
 static void        hostlist_shift_iterators(hostlist_t, int, int, int);
+static void        hostlist_host_deleted(hostlist_t, int, int, int);
 static int        _attempt_range_join(hostlist_t, int);
 static int        _is_bracket_needed(hostlist_t, int);
 
@@ -1720,6 +1721,23 @@ char *hostlist_pop(hostlist_t hl)
     return host;
 }
 
+/* host number `depth' of hl->hr[idx] was deleted; if `split', the hosts
+ * behind it now form hl->hr[idx + 1]: keep every iterator on the host
+ * it returned last */
+static void hostlist_host_deleted(hostlist_t hl, int idx, int depth, int split)
+{
+    hostlist_iterator_t i;
+    for (i = hl->ilist; i; i = i->next) {
+        if (i->idx != idx || i->depth < depth)
+            continue;
+        if (split && i->depth > depth) {
+            i->hr = hl->hr[++i->idx];
+            i->depth -= depth + 1;
+        } else
+            i->depth--;
+    }
+}
+
 /* find all iterators affected by a shift (or deletion) at
  * hl->hr[idx], depth, with the deletion of n ranges */
 static void
@@ -1933,8 +1951,11 @@ int hostlist_delete_nth(hostlist_t hl, int n)
             } else if ((new = hostrange_delete_host(hr, num))) {
                 hostlist_insert_range(hl, new, i + 1);
                 hostrange_destroy(new);
+                hostlist_host_deleted(hl, i, n - count, 1);
             } else if (hostrange_empty(hr))
                 hostlist_delete_range(hl, i);
+            else
+                hostlist_host_deleted(hl, i, n - count, 0);
 
             goto done;
         } else
@@ -2411,12 +2432,13 @@ int hostlist_remove(hostlist_iterator_t i)
     if (new) {
         hostlist_insert_range(i->hl, new, i->idx + 1);
         hostrange_destroy(new);
+        hostlist_host_deleted(i->hl, i->idx, i->depth, 1);
         i->hr = i->hl->hr[++i->idx];
         i->depth = -1;
     } else if (hostrange_empty(i->hr)) {
         hostlist_delete_range(i->hl, i->idx);
     } else
-        i->depth--;
+        hostlist_host_deleted(i->hl, i->idx, i->depth, 0);
 
     i->hl->nhosts--;
     UNLOCK_HOSTLIST(i->hl);
